@@ -166,6 +166,70 @@ AUD = [4, 2, -3, -1, 2, 5, -2, -4, 1, 3, -1, -2]
 SPL = [6, 3, -2, -5, -1, 2, 4, -3]
 
 
+def ob_zc_after_insert(timeout):
+    """state carried between calls on a real Wav: a crossing query, an insert, a second query -
+    the second answer is a genuine crossing of the CURRENT audio"""
+    rate = 1000
+    n = len(AUD)
+
+    def pre(j, q):
+        return 0 <= j <= n and 0 <= q <= n + len(SPL)
+
+    def body(j, q):
+        k = 3
+        wav = _wav(AUD, rate)
+        try:
+            wav.findNearestZeroCrossing(k / rate)
+        except errors.PraatioException:
+            pass
+        wav.insert(j / rate, _struct.pack("<" + "h" * len(SPL), *SPL))
+        cur = list(_struct.unpack("<" + "h" * (len(wav.frames) // 2), wav.frames))
+        if cur != AUD[:j] + SPL + AUD[j:]:
+            return "insert"
+        try:
+            t = wav.findNearestZeroCrossing(q / rate)
+        except errors.PraatioException:
+            return True
+        i = t * rate
+        if i != int(i) or not genuine(cur, int(i)):
+            return "second query is not a crossing of the audio as it is after the insert"
+        return True
+
+    return Ob("zerocrossing-query-insert-query", I("j", "q"), body, pre, fmode="real", timeout=timeout, funcs=FUNCS[:2] + ["praatio.audio.Wav.insert/getSamples"], bounds="real Wav (12 samples at 1 kHz): query at sample 3, insert 8 samples at any sample, query again at any sample")
+
+
+def ob_tg_zc_flags(timeout):
+    """adjustPointTiers / adjustIntervalTiers: tiers that are not adjusted stay, unchanged and
+    in place"""
+    xs = PATTERNS["mixed"]
+    n = len(xs)
+
+    def pre(a, b, p, fp, fi):
+        return 0 <= a < b <= n and 0 <= p <= n and 0 <= fp <= 1 and 0 <= fi <= 1
+
+    def body(a, b, p, fp, fi):
+        w = SymWav(xs)
+        tg = Textgrid(0.0, n / RATE)
+        tg.addTier(IntervalTier("i", [Interval(a / RATE, b / RATE, "x")], 0.0, n / RATE))
+        tg.addTier(PointTier("p", [Point(p / RATE, "u")], 0.0, n / RATE))
+        tg.addTier(IntervalTier("j", [], 0.0, n / RATE))
+        try:
+            r = praatio_scripts.tgBoundariesToZeroCrossings(tg, w, bool(fp), bool(fi))
+        except errors.PraatioException:
+            return True
+        if list(r.tierNames) != ["i", "p", "j"]:
+            return "tier set/order"
+        if not fi and tuples(r.getTier("i").entries) != [(a / RATE, b / RATE, "x")]:
+            return "interval tier changed although adjustIntervalTiers is False"
+        if not fp and tuples(r.getTier("p").entries) != [(p / RATE, "u")]:
+            return "point tier changed although adjustPointTiers is False"
+        if [len(t.entries) for t in r.tiers] != [1, 1, 0]:
+            return "entry counts"
+        return True
+
+    return Ob("tg-to-zerocrossings-flags", I("a", "b", "p", "fp", "fi"), body, pre, fmode="real", timeout=timeout, funcs=FUNCS[3:4], bounds="3 tiers, all four flag combinations, on-grid times")
+
+
 def ob_splice(align, with_stop, timeout):
     rate = 1000
     n = len(AUD)
@@ -224,6 +288,8 @@ def obligations(tier):
         obs.append(ob_zc(3, 1, 60))
         obs.append(ob_zc_nocrossing(6, 2, 300))
         obs.append(ob_tg_zc("mixed", 300))
+        obs.append(ob_tg_zc_flags(300))
+        obs.append(ob_zc_after_insert(300))
         obs.append(ob_splice(False, False, 300))
         obs.append(ob_splice(True, False, 300))
     else:
@@ -235,6 +301,8 @@ def obligations(tier):
                 obs.append(ob_zc_nocrossing(n, st, 1200))
         for p in PATTERNS:
             obs.append(ob_tg_zc(p, 1200))
+        obs.append(ob_tg_zc_flags(1200))
+        obs.append(ob_zc_after_insert(2400))
         for al in (False, True):
             for ws in (False, True):
                 obs.append(ob_splice(al, ws, 2400))
